@@ -151,12 +151,17 @@ def run(ctx):
         ctx.part('mc', timestamp_collision_found_by_model='NoViolation' in res.violated)
         # error path of the mapping run: F3 in the model, and the repair
         for fixed in ('FALSE', 'TRUE'):
-            cfg = ('SPECIFICATION FairSpec\nCONSTANTS N = 3 P = 2 FaultKs = {1, 2, 3} '
-                   'FaultPoints = {"before", "mid", "after"} FaultModes = {"kill"} '
+            cfg = ('SPECIFICATION FairSpec\nCONSTANTS N = 3 P = 2 FaultKs = {0, 1, 2, 3} '
+                   'FaultPoints = {"before", "mid", "after"} FaultModes = {"kill", "raise"} '
                    f'Fixed = {fixed}\nINVARIANT ScratchEmptyAtEnd\nCHECK_DEADLOCK FALSE\n')
             res = run_tlc('WorkerPool', cfg_text=cfg, timeout=1800)
             ctx.add_tlc(f'WorkerPool_scratch_fixed_{fixed}', res)
             ctx.part('mc', **{f'scratch_empty_on_error_fixed_{fixed}': res.ok})
+            # Fixed = TRUE is the code as repaired (workers stopped, buffer removed in finally): must hold.
+            # Fixed = FALSE documents the defect that was repaired (finding F3): the model must find it.
+            if fixed == 'TRUE' and not res.ok:
+                raise MachineryError('WorkerPool: ScratchEmptyAtEnd fails for the repaired clean-up\n'
+                                     + res.error_trace)
     if ctx.only not in (None, 'c2s'):
         return
     # ------------------------------------------------------------------ inputs
